@@ -52,7 +52,7 @@ def gen(rng):
                 r = rng.randrange(16, 32); stmts.append(('def', d, r)); live[d] = r
         elif k < .45 and live:
             d = rng.choice(list(live))
-            stmts.append(('ins', rng.choice(['mov %s, r1', 'ldi %s, 7', 'inc %s', 'cp r2, %s', 'mov r1, %s', 'ld %s, X', 'st Y+, %s', 'sbrc %s, 3', 'ldd %s, Z+2', 'andi %s, 0x0f', 'out 0x3f, %s', 'push %s']), 'reg', d, live[d]))
+            stmts.append(('ins', rng.choice(['mov %s, r1', 'ldi %s, 7', 'inc %s', 'cp r2, %s', 'mov r1, %s', 'ld %s, X', 'st Y+, %s', 'sbrc %s, 3', 'ldd %s, Z+2', 'andi %s, 0x0f', 'out 0x3f, %s', 'push %s', 'in %s, 0x3f', 'bld %s, 2', 'cpi %s, 3' if False else 'inc %s']), 'reg', d, live[d]))
         elif k < .6 and setval:
             s = rng.choice(list(setval))
             stmts.append(('ins', rng.choice(['.dw %s', 'ldi r16, %s', '.dw %s + 1', 'ldd r0, Y+(%s & 63)', 'sbi 5, %s & 7', 'ldi r16, low(%s)', '.dw -%s', 'c10use %s', 'cpi r20, (%s) & 0xff']), 'val', s, setval[s]))
@@ -133,6 +133,11 @@ def gen(rng):
         if s[0] == 'undef':
             aft = list(lines); aft.insert(idx + 1, '  mov %s, r3' % case(rng, s[1]))
             mutants.append(('alias after .undef', aft))
+    # an undefined name is an error wherever it stands in an expression, also behind an operand that decides && / ||
+    pos = rng.randrange(0, len(lines) + 1)
+    for t in ('  .dw 0 && c10_nosuch', '  ldi r16, 1 || c10_nosuch', '.if 0 && c10_nosuch\n.endif', '  .dw 1 || (c10_nosuch > 2)', '.set c10_v = 0 && c10_nosuch', '  .dw 0 * c10_nosuch'):
+        m = list(lines); m.insert(pos, t)
+        mutants.append(('undefined name behind a deciding operand', m))
     # cross-class name clashes: a name may have one definition only, whatever its class
     def add_clash(what, newline, pos=None):
         c = list(lines); c.insert(len(c) if pos is None else pos, newline); mutants.append((what, c))
